@@ -169,6 +169,17 @@ func (e *Enc) call(fr *Frame, instr ssa.Instruction, c *ssa.CallCommon, _ types.
 			e.get(fr.curState, k, SBool)
 			fr.curState.m[k] = True
 		}
+		if fr.isTop && cs.instr != nil {
+			for i, in := range e.callsNamed(cs.name) {
+				if in != cs.instr {
+					continue
+				}
+				if k := fmt.Sprintf("ghost:called:%s#%d", cs.name, i); e.keySorts[k] != "" {
+					e.get(fr.curState, k, SBool)
+					fr.curState.m[k] = True
+				}
+			}
+		}
 	}
 	return r
 }
